@@ -29,6 +29,12 @@ theorem drop_take_length (l : List α) (n : Nat) : l.drop (l.take n).length = l.
   · have h' : l.length ≤ n := by omega
     rw [Nat.min_eq_right h', List.drop_of_length_le (Nat.le_refl _), List.drop_of_length_le h']
 
+theorem filter_map_flatten {γ δ : Type} (l : List γ) (p : γ → Bool) (f : γ → δ) :
+    (l.filter p).map f = (l.map (fun x => if p x then [f x] else [])).flatten := by
+  induction l with
+  | nil => rfl
+  | cons x l ih => by_cases h : p x <;> simp [h, ih]
+
 /-! ### the lazy source -/
 
 theorem skipLoad_spec (hs : Gen.Cursor.skipsEmptyTables = true) (ts : List (List α)) :
@@ -351,5 +357,85 @@ theorem spent_run (ops : List (Op α)) (s : State α) (h : Spent s) : ∀ o ∈ 
     rcases ho with rfl | ho
     · exact (spent_step s op h).1
     · exact ih _ (spent_step s op h).2 o ho
+
+/-! ### several frames -/
+
+/-- Every derivation hands out a frame that owns its row list. -/
+def AllOwn : Prop := ∀ h : Deriv, h.owns = true
+
+theorem Sys.linked_nil (i : Nat) : Sys.linked ([] : List (Nat × Nat)) i = [] := rfl
+
+theorem Sys.growAll_nil (r : α) (fs : List (Frame α)) : Sys.growAll r [] fs = fs := rfl
+
+/-- One step of a system without shared lists, seen from frame `i`: an operation on `i` is that frame's own
+step, anything else leaves it as it is; and no shared list arises. -/
+theorem Sys.step_frame (own : AllOwn) (s : Sys α) (hl : s.links = []) (sop : SysOp α) (i : Nat) (f : Frame α)
+    (hf : s.frames[i]? = some f) :
+    (Sys.step s sop).1.links = [] ∧
+    (match sop with
+      | .on j op => if j = i then (Sys.step s sop).1.frames[i]? = some (Impl.step f op).1 ∧ (Sys.step s sop).2 = (Impl.step f op).2
+                    else (Sys.step s sop).1.frames[i]? = some f
+      | _ => (Sys.step s sop).1.frames[i]? = some f) := by
+  have hi : i < s.frames.length := by
+    rcases Nat.lt_or_ge i s.frames.length with h | h
+    · exact h
+    · rw [List.getElem?_eq_none h] at hf; cases hf
+  cases sop with
+  | on j op =>
+    by_cases hji : j = i
+    · subst hji
+      simp only [Sys.step, hf, hl, Sys.linked_nil, Sys.growAll_nil, if_true]
+      cases op <;> cases hb : f.backing <;> simp [hi]
+    · simp only [hji, if_false]
+      cases hj : s.frames[j]? with
+      | none => simp [Sys.step, hj, hl, hf]
+      | some g =>
+        simp only [Sys.step, hj, hl, Sys.linked_nil, Sys.growAll_nil]
+        cases op <;> cases hb : g.backing <;> simp [hf, List.getElem?_set_ne hji]
+  | derive j how rows =>
+    cases hj : s.frames[j]? with
+    | none => simp [Sys.step, hj, hl, hf]
+    | some g =>
+      cases hb : g.backing with
+      | lazy src => simp [Sys.step, hj, hb, hl, hf]
+      | eager prows p => simp [Sys.step, hj, hb, hl, hf, own how, List.getElem?_append_left hi]
+  | deriveLazy j tables =>
+    cases hj : s.frames[j]? with
+    | none => simp [Sys.step, hj, hl, hf]
+    | some g =>
+      cases hb : g.backing with
+      | lazy src => simp [Sys.step, hj, hb, hl, hf]
+      | eager prows p => simp [Sys.step, hj, hb, hl, hf, List.getElem?_append_left hi]
+
+/-- **Frames do not interfere.**  In a system where no two frames hold one list, whatever the history does
+to the other frames (fetches, appends, further derivations, on frames that exist or are made on the way),
+frame `i` goes through its own history `proj i ops` and returns what it would return alone. -/
+theorem Sys.run_frame (own : AllOwn) (ops : List (SysOp α)) (s : Sys α) (hl : s.links = []) (i : Nat) (f : Frame α)
+    (hf : s.frames[i]? = some f) :
+    (Sys.run s ops).1.links = [] ∧
+    (Sys.run s ops).1.frames[i]? = some (Impl.run f (Sys.proj i ops)).1 ∧
+    Sys.trace i ops (Sys.run s ops).2 = (Impl.run f (Sys.proj i ops)).2 := by
+  induction ops generalizing s f with
+  | nil => exact ⟨hl, hf, rfl⟩
+  | cons sop ops ih =>
+    have h1 := Sys.step_frame own s hl sop i f hf
+    cases sop with
+    | on j op =>
+      by_cases hji : j = i
+      · subst hji
+        simp only [if_true] at h1
+        have h2 := ih (Sys.step s (.on j op)).1 h1.1 (Impl.step f op).1 h1.2.1
+        simp only [Sys.run, Sys.proj, Sys.trace, if_true, Impl.run]
+        exact ⟨h2.1, h2.2.1, by rw [h1.2.2, h2.2.2]⟩
+      · simp only [hji, if_false] at h1
+        have h2 := ih (Sys.step s (.on j op)).1 h1.1 f h1.2
+        simp only [Sys.run, Sys.proj, Sys.trace, hji, if_false]
+        exact h2
+    | derive j how rows =>
+      have h2 := ih (Sys.step s (.derive j how rows)).1 h1.1 f h1.2
+      simpa only [Sys.run, Sys.proj, Sys.trace] using h2
+    | deriveLazy j tables =>
+      have h2 := ih (Sys.step s (.deriveLazy j tables)).1 h1.1 f h1.2
+      simpa only [Sys.run, Sys.proj, Sys.trace] using h2
 
 end Cursor
